@@ -154,7 +154,9 @@ def literal_stream(ctx, r):
     fails, unsupported, okc = [], 0, 0
     for b, m in zip(bodies, model):
         ref = cpy_literal(b)
-        if m.get('err') == 'unsupported':
+        if m.get('err') == 'unsupported' or b.startswith('""'):
+            # "" at the start of the body opens a TRIPLE-quoted literal (or an empty one): a token form the converter never
+            # writes (it escapes every quote) and the one-line literal model does not cover
             unsupported += 1
             continue
         got = ('ok', uncps(m['ok'])) if 'ok' in m else ('malformed',)
@@ -844,11 +846,40 @@ def literal_value_stream(ctx, items):
     ctx.notes['threshold_literals_checked'] = {'distinct_modifier_expressions': n, 'with_a_threshold_of_7_or_more_significant_digits': many}
 
 
+def rounding_sensitive(parsed, amount):
+    """[amount=v] is `abs(amount - v) < 0.01` in DOUBLE arithmetic on both paths; the model evaluates it on exact values
+    (trusted base: the rounding of that one subtraction is modelled away).  True when the two readings differ for this amount —
+    a razor's edge of one ulp around v ± 0.01 that the boundary generator hits on purpose; such a case is left to the
+    implementation-only oracle (both pipelines still have to agree) and counted."""
+    if amount is None:
+        return False
+    for c in parsed.amount_conditions:
+        if c.operator == '=':
+            try:
+                exact_lt = abs(Fraction(amount) - Fraction(c.value)) < Fraction(0.01)
+                float_lt = abs(amount - c.value) < 0.01
+            except (ValueError, OverflowError, TypeError):
+                continue
+            if exact_lt != float_lt:
+                return True
+    return False
+
+
+ROUNDING_SKIPPED = [0]
+
+
 def mods_stream(ctx, items):
     """items: (parsed, txn). modifierExpr/_modifier_to_expr, checkAll/check_all_conditions, evaluation/expr_parser."""
     from tally import merchant_engine as ME, expr_parser as EP
     from tally.modifier_parser import check_all_conditions
     impl, cases = [], {False: [], True: []}
+    kept = []
+    for parsed, txn in items:
+        if rounding_sensitive(parsed, txn['amount']):
+            ROUNDING_SKIPPED[0] += 1
+            continue
+        kept.append((parsed, txn))
+    items = kept
     for parsed, txn in items:
         unit = doubles_unit(parsed_doubles(parsed) + [txn['amount']])
         text = ME._modifier_to_expr(parsed)
@@ -891,8 +922,9 @@ def mods_stream(ctx, items):
     if det is None:
         bad = (res[False] or res[True])[0]
         if res[False] and res[True]:
-            # report the disagreement that is NOT about the '=' form if there is one
-            bad = next((x for x in res[True] if x in res[False]), bad)
+            # report the disagreement that is NOT about the '=' form if there is one; otherwise one of the variant that is closer
+            closer = res[True] if len(res[True]) <= len(res[False]) else res[False]
+            bad = next((x for x in res[True] if x in res[False]), closer[0])
     ctx.obligation('correspondence:_modifier_to_expr+check_all_conditions+evaluation-vs-Migrate.modifierExpr/checkAll/hitConj',
                    'correspondence', det is not None, cases=len(items), error=json.dumps(bad, default=str)[:900] if bad else None)
     return det
@@ -946,6 +978,10 @@ def classify_stream(ctx, cases, fixA, fixB, fixE, b):
         rules = obs['rules_csv']
         if not rules or not all(finite(r[4]) for r in rules) or any(x is None for r in rules for x in r[:4]):
             skipped += 1
+            continue
+        if any(rounding_sensitive(r[4], txn['amount']) for r in rules):
+            ROUNDING_SKIPPED[0] += 1
+            skipped += 1        # one-ulp edge of [amount=v]: outside the exact-arithmetic model (see rounding_sensitive)
             continue
         if not fixA and any('"' in r[0] for r in rules):
             skipped += 1        # pinned converter + raw quote: the line is re-tokenised by Python in ways the literal model does not cover
@@ -1094,7 +1130,8 @@ WITNESSES = [
     ('D14b-eq-epsilon', HDR + 'SHOP[amount=100],Shop,Shopping,,a|B\n', {'description': 'SHOP', 'amount': 100.004, 'date': D(2025, 1, 1)}),
     ('D14c-relative-dropped', HDR + 'X[date:last30days],X,Cat,,\n', {'description': 'X', 'amount': 1.0, 'date': D(2020, 1, 1)}),
     ('D14c-relative-breaks-file', HDR + 'X[amount>5][date:last30days],X,Cat,,\n', {'description': 'X', 'amount': 10.0, 'date': D(2020, 1, 1)}),
-    ('D14d-legacy-expression', HDR + '(1),One,Transport,Rideshare,\n', {'description': 'UBER TRIP', 'amount': 1.0, 'date': D(2025, 1, 1)}),
+    ('D14d-legacy-expression', HDR + 'contains("UBER"),One,Transport,Rideshare,\n', {'description': 'UBER TRIP', 'amount': 1.0, 'date': D(2025, 1, 1)}),
+    ('D1b-fixed', HDR + '(123)[amount:0-100],M0,Food,,\nSTORE,M1,Shopping,,\n', {'description': 'trader store 123', 'amount': -20.5, 'date': D(2025, 1, 1)}),
     ('D14e-empty-rule', HDR + 'UBER,Uber,,,\nLYFT,Lyft,Transport,,\n', {'description': 'LYFT', 'amount': 1.0, 'date': D(2025, 1, 1)}),
     ('D14f-untrimmed', HDR + 'UBER, Uber ,Cat , Sub,\n', {'description': 'UBER', 'amount': 1.0, 'date': D(2025, 1, 1)}),
     ('D14g-tag-syntax', HDR + 'UBER,Uber,Cat,Sub,"a,b|c"\n', {'description': 'UBER', 'amount': 1.0, 'date': D(2025, 1, 1)}),
@@ -1242,6 +1279,7 @@ def run(ctx):
             literal_value_stream(ctx, mod_items)
             evaluations += len(patterns) + len(mod_items)
             fixE = detect_fixE()
+            ctx.notes['one_ulp_edges_of_amount_equals_left_to_the_implementation_oracle'] = ROUNDING_SKIPPED[0]
             ctx.notes['implementation_corresponds_to_model_with'] = {'fixA (D14a escaping)': fixA, 'fixB (D14b epsilon)': fixB,
                                                                      'fixE (D14e rows without category and tags skipped)': fixE}
             m = len(cases) if ctx.quick else 8000
